@@ -132,6 +132,108 @@ pub fn single_edits(s: &str, alpha: &[&str], each: &mut dyn FnMut(String)) {
 }
 
 /// all ordered pairs of single-character edits over a small alphabet (second edit applied to the result of the first)
+/// Structural edits of a JSON document (through serde_json::Value): every key deleted, every number rewritten
+/// (boundary and huge values), every value replaced by a value of another type. `pairs` adds every
+/// (deleted key, second edit) combination - a field that is absent *and* a figure that is out of range.
+pub fn json_struct_edits(seed: &str, pairs: bool, each: &mut dyn FnMut(String)) {
+    let Ok(root) = serde_json::from_str::<Value>(seed) else { return };
+    type Edit = (Vec<String>, Option<Value>);
+    fn walk(v: &Value, path: &mut Vec<String>, edits: &mut Vec<Edit>) {
+        let wrong: [Value; 7] = [Value::Null, json!([]), json!({}), json!("x"), json!(true), json!([[[[[[[[1]]]]]]]]), json!(-1)];
+        match v {
+            Value::Object(m) => {
+                for (k, x) in m {
+                    path.push(k.clone());
+                    edits.push((path.clone(), None));
+                    walk(x, path, edits);
+                    path.pop();
+                }
+            }
+            Value::Array(a) => {
+                for (i, x) in a.iter().enumerate() {
+                    path.push(i.to_string());
+                    walk(x, path, edits);
+                    path.pop();
+                }
+            }
+            Value::Number(_) => {
+                for r in [
+                    json!(0u64),
+                    json!(1u64 << 32),
+                    json!(1u64 << 40),
+                    json!((1u64 << 53) + 1),
+                    json!(1u64 << 60),
+                    json!(1u64 << 63),
+                    json!(u64::MAX - 1),
+                    json!(u64::MAX),
+                    json!(1.0e308),
+                    json!(0.5),
+                ] {
+                    edits.push((path.clone(), Some(r)));
+                }
+            }
+            _ => {}
+        }
+        if !path.is_empty() {
+            for w in wrong {
+                if std::mem::discriminant(&w) != std::mem::discriminant(v) {
+                    edits.push((path.clone(), Some(w)));
+                }
+            }
+        }
+    }
+    fn apply(root: &mut Value, path: &[String], new: &Option<Value>) -> bool {
+        if path.len() == 1 {
+            return match (root, new) {
+                (Value::Object(m), None) => m.remove(&path[0]).is_some(),
+                (Value::Object(m), Some(v)) => m.insert(path[0].clone(), v.clone()).is_some(),
+                (Value::Array(a), Some(v)) => match path[0].parse::<usize>().ok().filter(|i| *i < a.len()) {
+                    Some(i) => {
+                        a[i] = v.clone();
+                        true
+                    }
+                    None => false,
+                },
+                _ => false,
+            };
+        }
+        let next = match root {
+            Value::Object(m) => m.get_mut(&path[0]),
+            Value::Array(a) => path[0].parse::<usize>().ok().and_then(|i| a.get_mut(i)),
+            _ => None,
+        };
+        match next {
+            Some(n) => apply(n, &path[1..], new),
+            None => false,
+        }
+    }
+    let mut edits: Vec<Edit> = vec![];
+    walk(&root, &mut vec![], &mut edits);
+    for (path, new) in &edits {
+        let mut d = root.clone();
+        if apply(&mut d, path, new) {
+            each(d.to_string());
+        }
+    }
+    if pairs {
+        for (p1, n1) in edits.iter().filter(|e| e.1.is_none()) {
+            let mut d1 = root.clone();
+            if !apply(&mut d1, p1, n1) {
+                continue;
+            }
+            for (p2, n2) in &edits {
+                if p2.starts_with(p1) {
+                    continue;
+                }
+                let mut d2 = d1.clone();
+                if apply(&mut d2, p2, n2) {
+                    each(d2.to_string());
+                }
+            }
+        }
+    }
+}
+
 pub fn pair_edits(s: &str, alpha: &[&str], each: &mut dyn FnMut(String)) {
     let mut firsts: Vec<String> = vec![];
     char_edits(s, alpha, &mut |x| firsts.push(x));
@@ -406,11 +508,15 @@ pub fn run_c18(tier: &str) -> i32 {
         Pairs(usize, String),
         Strings(usize, String, usize),
         Cross(usize, String),
+        JsonStruct(usize, String),
     }
     let mut jobs: Vec<Job> = vec![];
     let pidx = |name: &str| parsers.iter().position(|p| p.0 == name).unwrap();
     for (p, s) in &seeds {
         jobs.push(Job::Single(pidx(p), s.clone()));
+        if p.starts_with("json:") {
+            jobs.push(Job::JsonStruct(pidx(p), s.clone()));
+        }
         if full && s.chars().count() <= 260 {
             jobs.push(Job::Pairs(pidx(p), s.clone()));
         }
@@ -554,6 +660,7 @@ pub fn run_c18(tier: &str) -> i32 {
                             })
                         }
                         Job::Cross(pi, s) => run(*pi, s),
+                        Job::JsonStruct(pi, s) => json_struct_edits(s, true, &mut |x| run(*pi, &x)),
                     }
                 }
                 watch.progress[w].store(u64::MAX, Ordering::Relaxed);
@@ -585,7 +692,7 @@ pub fn run_c18(tier: &str) -> i32 {
         "per_parser_inputs",
         json!(parsers.iter().zip(per_parser.iter()).map(|(p, c)| json!({"parser": p.0, "inputs": c.load(Ordering::Relaxed)})).collect::<Vec<_>>()),
     );
-    report.cov("rule", json!(format!("for each of {} seeds (one valid encoding per type and variant, text and JSON): every truncation, every deletion / insertion / substitution at every character offset with a 17-symbol alphabet incl. multi-byte characters, every numeric literal rewritten, every segment duplicated / dropped / swapped{}; every seed fed to every parser; every string of length <= {} over a 15-symbol structural alphabet after each format prefix; each input is parsed under catch_unwind with a hang watchdog; distinct_nontrivial = inputs that were accepted (Ok)", seeds.len(), if full { "; all ordered pairs of single-character edits over a 6-symbol alphabet for seeds up to 260 characters" } else { "" }, len)));
+    report.cov("rule", json!(format!("for each of {} seeds (one valid encoding per type and variant, text and JSON): every truncation, every deletion / insertion / substitution at every character offset with a 17-symbol alphabet incl. multi-byte characters, every numeric literal rewritten, every segment duplicated / dropped / swapped{}; for the JSON seeds every key deleted, every number rewritten to ten boundary / huge values, every value replaced by seven values of other types, and every (deleted key, second edit) pair; every seed fed to every parser; every string of length <= {} over a 15-symbol structural alphabet after each format prefix; each input is parsed under catch_unwind with a hang watchdog; distinct_nontrivial = inputs that were accepted (Ok)", seeds.len(), if full { "; all ordered pairs of single-character edits over a 6-symbol alphabet for seeds up to 260 characters" } else { "" }, len)));
     report.cov("samples", json!(seeds.iter().take(3).map(|(p, s)| json!({"parser": p, "seed": s})).collect::<Vec<_>>()));
     report.cov("exhaustive", json!(true));
     report.assumptions = vec!["inputs are edits of valid encodings and short strings over a structural alphabet, not all Unicode strings".into(), "aborts (stack overflow, allocation failure) would terminate the check process: reported as a machinery failure by the wrapper, not silently passed".into()];
@@ -730,6 +837,29 @@ fn structural_edits(pkg: &Value) -> Vec<(String, Value)> {
                 }
             }
             Value::String(s) => {
+                // an id rewritten as a whole: the same 128 bits in the other id format, and other spellings
+                // of the same id (which may be accepted - with identical content - or rejected)
+                let bits: Option<(u128, bool)> = uuid::Uuid::parse_str(s)
+                    .ok()
+                    .filter(|_| s.len() == 36)
+                    .map(|u| (u.as_u128(), true))
+                    .or_else(|| ulid::Ulid::from_string(s).ok().map(|u| (u.0, false)));
+                if let Some((b, is_uuid)) = bits {
+                    let other = if is_uuid { ulid::Ulid(b).to_string() } else { uuid::Uuid::from_u128(b).to_string() };
+                    edits.push((format!("id at {} rewritten in the other id format ({other})", path.join(".")), path.clone(), Some(json!(other))));
+                    let spellings = if is_uuid {
+                        vec![s.to_uppercase(), s.replace('-', ""), format!("{{{s}}}"), format!("urn:uuid:{s}")]
+                    } else {
+                        vec![s.to_lowercase()]
+                    };
+                    for sp in spellings {
+                        if sp != *s {
+                            edits.push((format!("id at {} respelled ({sp})", path.join(".")), path.clone(), Some(json!(sp))));
+                        }
+                    }
+                    let next = if is_uuid { uuid::Uuid::from_u128(b ^ 1).to_string() } else { ulid::Ulid(b ^ 1).to_string() };
+                    edits.push((format!("id at {} -> another id ({next})", path.join(".")), path.clone(), Some(json!(next))));
+                }
                 // enum-like strings
                 for alt in ["BUY", "SELL", "GTC", "IOC", "DAY", "BestBid", "LastTrade"] {
                     if s != alt && ["BUY", "SELL", "GTC", "IOC", "FOK", "DAY", "BestBid", "BestAsk", "MidPrice", "LastTrade"].contains(&s.as_str()) {
@@ -816,17 +946,32 @@ fn structural_edits(pkg: &Value) -> Vec<(String, Value)> {
 pub fn run_c09(tier: &str) -> i32 {
     let full = tier != "quick";
     let mut report = Report::new("C09", tier, "fault_enumeration");
-    let mut seeds: Vec<(u64, Vec<Ord_>, bool)> = c09_seed_levels(full)
+    // (level price, orders, large level, listing permutation used when the package is written)
+    let mut seeds: Vec<(u64, Vec<Ord_>, bool, usize)> = c09_seed_levels(full)
         .into_iter()
         .enumerate()
-        .map(|(k, l)| (LEVEL_PRICE + k as u64, l, false))
+        .map(|(k, l)| (LEVEL_PRICE + k as u64, l, false, 0))
         .collect();
+    // orders sharing a timestamp: the package may list them in any sequence (map order); every sequence of
+    // three / four tied orders (the fourth is the ULID twin of #1) is written once. Structural faults only.
+    {
+        let p = LEVEL_PRICE;
+        let three = vec![mk_ts(Tmpl::S10, 1, p, 7), mk_ts(Tmpl::S5, 2, p, 7), mk_ts(Tmpl::IC34, 3, p, 7)];
+        for k in 0..6 {
+            seeds.push((p, three.clone(), false, k));
+        }
+        let mut four = vec![mk_ts(Tmpl::S3, 2, p, 7), mk_ts(Tmpl::S10, 1, p, 7), mk_ts(Tmpl::S5, 4, p, 7), mk_ts(Tmpl::RS36, 3, p, 9)];
+        four.push(mk_ts(Tmpl::S5, 5, p, 9));
+        for k in 0..if full { 120 } else { 24 } {
+            seeds.push((p + 1, four.clone(), false, k * if full { 1 } else { 5 }));
+        }
+    }
     // large levels: the serialized package is longer than typical buffer sizes (4 KiB, 8 KiB); the level price
     // takes every decimal length so that block boundaries fall on every alignment of the repeating order records
     let mut p10: u64 = 1;
     for j in 0..20 {
         let n = if j % 5 == 4 { 70 } else { 40 };
-        seeds.push((p10, (0..n).map(|i| crate::seq_level::bulk_order(i, LEVEL_PRICE)).collect(), true));
+        seeds.push((p10, (0..n).map(|i| crate::seq_level::bulk_order(i, LEVEL_PRICE)).collect(), true, 0));
         p10 = p10.saturating_mul(10).max(1);
         if j == 18 {
             p10 = u64::MAX;
@@ -861,11 +1006,13 @@ pub fn run_c09(tier: &str) -> i32 {
                         capped.store(true, Ordering::Relaxed);
                         break;
                     }
-                    let (seed_price, seed_orders, big) = (seeds[k].0, &seeds[k].1, seeds[k].2);
+                    let (seed_price, seed_orders, big, perm) = (seeds[k].0, &seeds[k].1, seeds[k].2, seeds[k].3);
+                    let light = seed_orders.len() >= 2 && rec(&seed_orders[0]).ts == 7;
                     let level = PriceLevel::new(seed_price);
                     for o in seed_orders {
                         level.add_order(*o);
                     }
+                    pricelevel::verif_hooks::set_listing_permutation(Some(perm));
                     let Ok(text) = level.snapshot_to_json() else {
                         a.failures.push("C09 snapshot_to_json failed on a valid level".into());
                         continue;
@@ -886,6 +1033,37 @@ pub fn run_c09(tier: &str) -> i32 {
                     };
                     if a.samples.len() < 1 {
                         a.samples.push(json!({"seed_package": text}));
+                    }
+                    // the untouched package: the restored level queues the orders in the sequence the package lists
+                    // (the sequence that was checksummed) - seen through the first visit of each maker by a draining match
+                    {
+                        a.evals += 1;
+                        let listed: Vec<(u128, u64)> = serde_json::from_str::<Value>(&text)
+                            .ok()
+                            .and_then(|v| v["snapshot"]["orders"].as_array().cloned())
+                            .unwrap_or_default()
+                            .iter()
+                            .filter_map(|o| serde_json::from_value::<Ord_>(o.clone()).ok())
+                            .map(|o| (rec(&o).id, o_vis(&o)))
+                            .collect();
+                        let n_listed = listed.len();
+                        // an order that displays nothing gives nothing at its first visit: only the others are compared
+                        let listed: Vec<u128> = listed.into_iter().filter(|x| x.1 > 0).map(|x| x.0).collect();
+                        let mut visited: Vec<u128> = vec![];
+                        for (mk, _) in &pristine.6.fills {
+                            if !visited.contains(mk) && listed.contains(mk) {
+                                visited.push(*mk);
+                            }
+                        }
+                        let expect: Vec<u128> = listed.iter().copied().filter(|i| visited.contains(i)).collect();
+                        if n_listed != seed_orders.len() {
+                            a.failures.push(format!("C09 an untouched package lists {} orders, the level held {}: {text}", n_listed, seed_orders.len()));
+                        } else if visited != expect {
+                            a.failures.push(format!(
+                                "C09 untouched package restores a different order sequence: the package lists the orders as {expect:?} but a draining match on the restored level visits them as {visited:?}; input {text}"));
+                        } else {
+                            a.accepted_equal += 1;
+                        }
                     }
                     let mut judge = |a: &mut Acc, what: &str, input: &str, must_fail: bool| {
                         a.evals += 1;
@@ -921,7 +1099,7 @@ pub fn run_c09(tier: &str) -> i32 {
                     };
                     let alpha: Vec<&str> = printable.iter().map(|s| s.as_str()).collect();
                     let idx: Vec<usize> = text.char_indices().map(|(i, _)| i).chain([text.len()]).collect();
-                    let n = idx.len() - 1;
+                    let n = if light { 0 } else { idx.len() - 1 };
                     for c in 0..n {
                         judge(&mut a, &format!("torn write: prefix of {c} characters"), &text[..idx[c]], true);
                     }
@@ -935,6 +1113,9 @@ pub fn run_c09(tier: &str) -> i32 {
                         }
                     }
                     for c in 0..=n {
+                        if light {
+                            break;
+                        }
                         for x in &alpha {
                             judge(&mut a, &format!("insertion at {c}"), &format!("{}{}{}", &text[..idx[c]], x, &text[idx[c]..]), false);
                         }
@@ -1163,7 +1344,12 @@ pub fn replay(doc: &Value) -> i32 {
                 return 0;
             }
             let run = || match std::panic::catch_unwind(|| PriceLevel::from_snapshot_json(&input)) {
-                Ok(Ok(l)) => format!("accepted: {}", l),
+                Ok(Ok(l)) => {
+                    let shown = format!("{l}");
+                    let g = UuidGenerator::new(crate::seq_level::NS);
+                    let d = DRAIN_REC.with(|r| r.with_budget(20_000, || match_obs(&l.match_order(crate::seq_level::DRAIN_QTY, oid(999), &g))));
+                    format!("accepted: {shown}; a draining match on the restored level: {}", d.map(|d| d.describe()).unwrap_or_else(|_| "did not return".into()))
+                }
                 Ok(Err(e)) => format!("rejected: {e}"),
                 Err(_) => "PANIC".to_string(),
             };
